@@ -25,13 +25,19 @@ package main
 //  M6      Cache2D returns the map entry stored under exactly that point, or
 //          the wrapped shape's own value, and stores that value under the point
 //
+//  M9      Slice2D: the operand is evaluated at a + x·U + y·V with (U, V) an orthonormal,
+//          right-handed frame of the plane through a with normal n - for each of the four
+//          branches that choose the in-plane x axis (n.X = 0, n.Y = 0, n.Z = 0, general)
+//
 // Not decided: bounds of the polynomial blends, voxel interpolation weights,
 // rotation matrix constructors (unit tests cover those), numerical accuracy.
 
 import (
 	"fmt"
+	"math"
 	"math/big"
 	"os"
+	"regexp"
 	"sort"
 	"strings"
 
@@ -194,6 +200,7 @@ func checkC02(ctx *Ctx, r *Report, tier string) {
 	checkRevolve(ctx, r)
 	checkInverses(ctx, r)
 	checkVoxelLattice(ctx, r)
+	checkSlice(ctx, r)
 	checkFolds(ctx, r)
 	checkSawTooth(ctx, r)
 	checkCacheIdentity(ctx, r)
@@ -349,6 +356,24 @@ type foldInfo struct {
 }
 
 func analyseFold(t *Term) (*foldInfo, string) {
+	// an explicit answer for the empty list in front of the fold: len(list) == 0 ? const : fold
+	for t != nil && t.Op == "ite" {
+		c := t.Args[0]
+		if c.Op == "not" {
+			c = c.Args[0]
+		}
+		if c.Op != "cmp" || !strings.Contains(c.Key(), "len(") {
+			break
+		}
+		switch {
+		case t.Args[1].IsConst():
+			t = t.Args[2]
+		case t.Args[2].IsConst():
+			t = t.Args[1]
+		default:
+			return nil, "result is not a loop-carried value"
+		}
+	}
 	if t == nil || t.Op != "a" {
 		return nil, "result is not a loop-carried value"
 	}
@@ -395,9 +420,60 @@ func analyseFold(t *Term) (*foldInfo, string) {
 			f, _ := init0.C.Float64()
 			fi.initInf = f > 1e300
 		}
+		if os.Getenv("VERIF_DEBUG") != "" {
+			fmt.Println("DEBUG analyseFold init", shortKey(init0.Key(), 160), "| X", shortKey(fi.X.Key(), 160))
+		}
+		// the first iteration peeled off: the running value starts as the operand with index 0
+		// and the loop folds in the operands from index 1 on
+		if !fi.firstOK && init0.Op == "call" && fi.X.Op == "call" && indexFamily(init0.S) == indexFamily(fi.X.S) &&
+			strings.Contains(init0.S, "[0]") && firstIndexOf(fi.X.S) == 1 && fmt.Sprint(init0.Args) == fmt.Sprint(fi.X.Args) {
+			fi.firstOK = true
+		}
 		return fi, ""
 	}
 	return nil, "recurrence chain too deep"
+}
+
+var reIdxMu = regexp.MustCompile(`\[(?:\+\((-?\d+),)?(μ\d+)\)?\]`)
+
+// firstIndexOf: for an operand name like s.sdf[+(2,μ21)].Evaluate, the value of the index in the
+// first iteration (the recurrence's initial value plus the constant), or -1.
+func firstIndexOf(name string) int64 {
+	m := reIdxMu.FindStringSubmatch(name)
+	if m == nil {
+		return -1
+	}
+	rc, ok := recs[m[2]]
+	if !ok || !rc.Init.IsConst() || !rc.Init.C.IsInt() || rc.Step.Key() != Add(K(1), A(m[2])).Key() {
+		return -1
+	}
+	k := int64(0)
+	if m[1] != "" {
+		fmt.Sscan(m[1], &k)
+	}
+	return k + rc.Init.C.Num().Int64()
+}
+
+// indexFamily strips the outermost index of an operand name: s.sdf[0].Evaluate and
+// s.sdf[+(1,μ3)].Evaluate are members of the family s.sdf[].Evaluate.
+func indexFamily(name string) string {
+	i := strings.Index(name, "[")
+	if i < 0 {
+		return name
+	}
+	depth := 0
+	for j := i; j < len(name); j++ {
+		switch name[j] {
+		case '[':
+			depth++
+		case ']':
+			depth--
+			if depth == 0 {
+				return name[:i] + "[]" + name[j+1:]
+			}
+		}
+	}
+	return name
 }
 
 func otherArg(call *Term, mu *Term) *Term {
@@ -456,8 +532,34 @@ func checkFolds(ctx *Ctx, r *Report) {
 		}
 		r.check("M1", f.ctor+"|default-blend-is-math.Min", fn.Pos(), fi.minFn == "math.Min", "the union-like fold uses "+fi.minFn+" by default")
 		r.check("M-fold", f.ctor+"|starts-from-the-first-operand-or-infinity", fn.Pos(), fi.firstOK || fi.initInf, "running value starts as the first operand's value or +MaxFloat64")
-		if len(ev.RootRets) != 1 {
-			r.check("M-fold", f.ctor+"|no-early-return", fn.Pos(), false, fmt.Sprintf("%d return paths", len(ev.RootRets)))
+		// return paths other than the fold's: only an answer for the empty list
+		early := 0
+		for _, alt := range ev.RootRets {
+			if alt.Cond == nil || alt.Cond.IsConst() {
+				continue
+			}
+			onlyLen := true
+			for _, ca := range condAtoms(alt.Cond) {
+				if !strings.Contains(ca.Key(), "len(") {
+					onlyLen = false
+				}
+			}
+			if _, isConst := alt.Val.(*Term); !(onlyLen && isConst && alt.Val.(*Term).IsConst()) && !onlyLen {
+				early++
+			}
+		}
+		if early > 0 {
+			r.check("M-fold", f.ctor+"|no-early-return", fn.Pos(), false, fmt.Sprintf("%d return paths that do not depend on the list being empty", early))
+		}
+		if os.Getenv("VERIF_DEBUG") != "" {
+			if rc, ok := recs[func() string {
+				if t != nil && t.Op == "a" {
+					return t.S
+				}
+				return ""
+			}()]; ok {
+				fmt.Println("DEBUG fold", f.ctor, "init", shortKey(rc.Init.Key(), 200), "X", shortKey(fi.X.Key(), 200))
+			}
 		}
 		X := fi.X
 		okX := X.Op == "call" && strings.HasSuffix(X.S, ".Evaluate") && len(X.Args) == 1 && X.Args[0].Op == "agg" && len(X.Args[0].Args) == f.dim
@@ -1111,4 +1213,122 @@ func checkVoxelLattice(ctx *Ctx, r *Report) {
 	}
 	r.check("M8", key, ctor.Pos(), okAll, "at every sample position P(I) Evaluate returns the value stored for I; "+detail)
 	r.floor("M8", 1)
+}
+
+// ---------------------------------------------------------------- M9: planar slice
+
+// checkSlice: the composite of Slice2D and SliceSDF2.Evaluate is operand(Q(p)) with Q affine in
+// p. Per branch of the axis choice (the zero pattern of n decides it): Q(0) ≡ a, the images U, V
+// of the 2D unit vectors satisfy U·n ≡ 0, V·n ≡ 0, U·V ≡ 0 (rational identities, the square
+// roots of the normalisations opaque), and - numerically, at a few parameter points inside the
+// checker - |U| = |V| = 1 and (U × V)·n > 0.
+func checkSlice(ctx *Ctx, r *Report) {
+	fn := ctx.ssaFunc("sdf", "Slice2D")
+	if fn == nil {
+		r.undecided("M9", "Slice2D", 0, "constructor not found")
+		return
+	}
+	alts, _ := ctorAlts(ctx, fn)
+	if len(alts) != 1 {
+		r.undecided("M9", "Slice2D", fn.Pos(), fmt.Sprintf("%d object-building alternatives, expected 1", len(alts)))
+		return
+	}
+	res, _, err := composeMethod(ctx, alts[0], "Evaluate")
+	t, _ := res.(*Term)
+	if err != nil || t == nil || t.Op != "call" || !strings.HasSuffix(t.S, ".Evaluate") || len(t.Args) != 1 || t.Args[0].Op != "agg" || len(t.Args[0].Args) != 3 {
+		r.undecided("M9", "Slice2D", fn.Pos(), "composite is not operand(Q): "+shortKey(valKey(res), 200))
+		return
+	}
+	Q := t.Args[0].Args
+	comps := []string{"X", "Y", "Z"}
+	nz := func(c string) string { return Cmp("==", A("n."+c), K(0)).Key() }
+	type sliceCase struct {
+		name  string
+		truth map[string]bool
+		zero  string
+	}
+	cases := []sliceCase{
+		{"n.X=0", nil, "X"},
+		{"n.X≠0,n.Y=0", map[string]bool{nz("X"): false}, "Y"},
+		{"n.X≠0,n.Y≠0,n.Z=0", map[string]bool{nz("X"): false, nz("Y"): false}, "Z"},
+		{"general", map[string]bool{nz("X"): false, nz("Y"): false, nz("Z"): false}, ""},
+	}
+	dot := func(a, b []*Term) *Term {
+		return Add(Mul(a[0], b[0]), Mul(a[1], b[1]), Mul(a[2], b[2]))
+	}
+	for _, c := range cases {
+		key := "Slice2D|" + c.name
+		var q, q0, U, V, n []*Term
+		okShape := true
+		for i := range Q {
+			x := Q[i]
+			if c.truth != nil {
+				x = assume(x, c.truth)
+			}
+			if c.zero != "" {
+				x = substAtoms(x, map[string]*Term{"n." + c.zero: K(0)})
+			}
+			if len(condAtoms(x)) != 0 {
+				okShape = false
+			}
+			q = append(q, x)
+			z := substAtoms(x, map[string]*Term{"p.X": K(0), "p.Y": K(0)})
+			q0 = append(q0, z)
+			U = append(U, Sub(substAtoms(x, map[string]*Term{"p.X": K(1), "p.Y": K(0)}), z))
+			V = append(V, Sub(substAtoms(x, map[string]*Term{"p.X": K(0), "p.Y": K(1)}), z))
+			if comps[i] == c.zero {
+				n = append(n, K(0))
+			} else {
+				n = append(n, A("n."+comps[i]))
+			}
+		}
+		if !okShape {
+			r.undecided("M9", key, fn.Pos(), "the mapped point still depends on a condition in this case: "+shortKey(q[0].Key(), 200))
+			continue
+		}
+		okAff, okOrigin := true, true
+		for i := range q {
+			okAff = okAff && equalRat(q[i], Add(q0[i], Mul(A("p.X"), U[i]), Mul(A("p.Y"), V[i])))
+			okOrigin = okOrigin && equalRat(q0[i], A("a."+comps[i]))
+		}
+		r.check("M9", key+"|affine-with-origin-a", fn.Pos(), okAff && okOrigin, "the 2D origin maps to a and the map is affine in p; Q.X = "+shortKey(q[0].Key(), 160))
+		okPlane := equalRat(dot(U, n), K(0)) && equalRat(dot(V, n), K(0))
+		r.check("M9", key+"|axes-lie-in-the-plane", fn.Pos(), okPlane, "U·n ≡ 0 and V·n ≡ 0 (the images of the 2D axes are perpendicular to the slicing normal); U = ("+shortKey(U[0].Key(), 80)+", "+shortKey(U[1].Key(), 80)+", "+shortKey(U[2].Key(), 80)+")")
+		r.check("M9", key+"|axes-perpendicular", fn.Pos(), equalRat(dot(U, V), K(0)), "U·V ≡ 0")
+		// unit length and handedness: numeric evaluation of the closed forms inside the checker
+		okUnit, okHand, nEval := true, true, 0
+		for _, pt := range [][3]float64{{0.7, -1.3, 2.1}, {-2.5, 0.4, -0.9}, {1.1, 1.7, 0.6}, {-0.3, -2.2, -1.4}} {
+			env := map[string]float64{"n.X": pt[0], "n.Y": pt[1], "n.Z": pt[2], "a.X": 0.5, "a.Y": -1.5, "a.Z": 2.5}
+			var u, v [3]float64
+			good := true
+			for i := 0; i < 3; i++ {
+				var o1, o2 bool
+				u[i], o1 = evalFloat(U[i], env)
+				v[i], o2 = evalFloat(V[i], env)
+				good = good && o1 && o2
+			}
+			if !good {
+				continue
+			}
+			nEval++
+			nn := [3]float64{env["n.X"], env["n.Y"], env["n.Z"]}
+			for i, cc := range comps {
+				if cc == c.zero {
+					nn[i] = 0
+				}
+			}
+			uu := u[0]*u[0] + u[1]*u[1] + u[2]*u[2]
+			vv := v[0]*v[0] + v[1]*v[1] + v[2]*v[2]
+			cx := [3]float64{u[1]*v[2] - u[2]*v[1], u[2]*v[0] - u[0]*v[2], u[0]*v[1] - u[1]*v[0]}
+			okUnit = okUnit && math.Abs(uu-1) < 1e-9 && math.Abs(vv-1) < 1e-9
+			okHand = okHand && cx[0]*nn[0]+cx[1]*nn[1]+cx[2]*nn[2] > 0
+		}
+		if nEval == 0 {
+			r.undecided("M9", key+"|unit-axes", fn.Pos(), "closed forms could not be evaluated numerically")
+			continue
+		}
+		r.check("M9", key+"|unit-axes", fn.Pos(), okUnit, "|U| = |V| = 1 (distances in the slice are distances in space)")
+		r.check("M9", key+"|right-handed", fn.Pos(), okHand, "(U × V)·n > 0: the slice is seen from the side the normal points to, not mirrored")
+	}
+	r.floor("M9", 20)
 }
